@@ -143,6 +143,25 @@ class JumpToStageHandler(StabilizeHandler[JumpToStage]):
             # (retrieve_stage only returns partial execution with one stage)
             execution = self.repository.retrieve(message.execution_id)
 
+            if execution.is_canceled:
+                # A jump applied after the cancel would re-arm (NOT_STARTED)
+                # stages the cancel already ended and restart the target in a
+                # workflow whose tasks can no longer run; like RestartStage,
+                # refuse it and consume the message.
+                logger.warning(
+                    "Ignoring JumpToStage to %s: execution %s is canceled",
+                    message.target_stage_ref_id,
+                    execution.id,
+                )
+                if message.message_id:
+                    with self.repository.transaction(self.queue) as txn:
+                        txn.mark_message_processed(
+                            message_id=message.message_id,
+                            handler_type="JumpToStage",
+                            execution_id=message.execution_id,
+                        )
+                return
+
             # Get source stage from full execution for consistency
             source_stage = next(
                 (s for s in execution.stages if s.id == message.stage_id),
